@@ -37,7 +37,8 @@ META = {
 
 NS = [2, 4, 8, 16, 32, 64]
 SIGNAL_MODES = ('signal', 'signalmain', 'baresignal', 'baresignalmain')
-RESET_MODES = ('resetwhile', 'bareresetwhile')
+SLOW_RESET_MODES = ('resetslow', 'bareresetslow')
+RESET_MODES = ('resetwhile', 'bareresetwhile') + SLOW_RESET_MODES
 ALL_MODES = ('logger', 'bare', 'mixed', 'fatal', 'mixed+fatal', 'throw', 'throwlogger', 'filtered', 'pattern') + SIGNAL_MODES + RESET_MODES
 
 
@@ -213,7 +214,27 @@ def reset_configs(chk, reps):
             for n in chk.rng.sample([2, 4, 8], 2):
                 cfgs.append({'mode': mode, 'n': n, 'per': chk.rng.choice([40, 60, 100]), 'seed': chk.rng.randrange(1, 2 ** 31),
                              'perturb': chk.rng.choice([0, 1, 2]), 'dup': chk.rng.choice([0, 0, 1]), 'stall': 0})
+        # the last queued message is inside a slow handler (400 ms) when resetOwnThread() is called; the producers log again
+        # 100 ms later: nobody enters the pipeline while the worker is inside, the later messages follow the one in flight
+        for mode in SLOW_RESET_MODES:
+            cfgs.append({'mode': mode, 'n': chk.rng.choice([2, 3, 4]), 'per': chk.rng.choice([4, 6, 10, 20]), 'seed': chk.rng.randrange(1, 2 ** 31),
+                         'perturb': chk.rng.choice([0, 1]), 'dup': 0, 'stall': 400})
     return cfgs
+
+
+def after_marker(toks, cfg):
+    """resetslow modes: every message logged after the reset began is delivered after the marker (the message that was in flight)"""
+    a = max(1, cfg['per'] // 2)
+    pos = {t: k for k, t in enumerate(toks) if t[0] in 'EX'}
+    mk = next((k for k, t in enumerate(toks) if t.startswith('X.0.%d.' % a)), None)
+    if mk is None:
+        return []
+    for k, t in enumerate(toks[:mk]):
+        f = t.split('.')
+        if f[0] == 'X' and int(f[2]) >= a and (int(f[1]), int(f[2])) != (0, a):
+            return [('reorder', 'message %s of producer %s, logged after resetOwnThread() had begun, reached the sink before message %d of '
+                     'producer 0, which the logger thread was processing when the reset began' % (f[2], f[1], a), k)]
+    return []
 
 
 def shrink_config(cfg, still_fails, budget=14):
@@ -394,6 +415,9 @@ def run():
         n_deliv += len(xs)
         switches += sum(1 for a, b in zip(xs, xs[1:]) if a.split('.')[1] != b.split('.')[1])
         bad = classify(toks, nprod(cfg), cfg['per'])
+        if cfg['mode'] in SLOW_RESET_MODES:
+            bad += after_marker(toks, cfg)
+            reset_stats['slow_handler_resets'] = reset_stats.get('slow_handler_resets', 0) + 1
         mv = model_verdict(model, cfg, toks)
         if mv is None:
             chk.broke('model driver produced no verdict', dict(cfg, kind='driver')); continue
@@ -464,6 +488,10 @@ def run():
                 note = (' [pipeline moved to its own thread, resetOwnThread() called while the producers keep logging: the events of a '
                         'producer\'s message are recorded on the worker thread (posted) or on the producer itself (synchronous again)]'
                         if cfg['mode'] in RESET_MODES else '')
+                if cfg['mode'] in SLOW_RESET_MODES:
+                    note += (' [message %d of producer 0 is the last queued one; its handler takes %d ms; resetOwnThread() is called once the logger '
+                             'thread is inside that handler; the producers log their messages >= %d about %d ms later]'
+                             % (max(1, cfg['per'] // 2), cfg.get('stall') or 400, max(1, cfg['per'] // 2), (cfg.get('stall') or 400) // 4))
                 chk.fail('%s: %s (mode %s, %d threads x %d messages)%s' % (b[0], b[1], cfg['mode'], cfg['n'], cfg['per'], note),
                          dict(cfg, kind=b[0], detail=b[1], violations_in_this_run=len(bad), acceptor=mv, shrunk_from=shrunk_from,
                               first_rejected_event=at, schedule_up_to_first_rejected_event=ex_toks[max(0, at - 30):at + 1],
@@ -506,7 +534,8 @@ def run():
                             'N in {2,4,8,16,32,64} producer threads, ~%d messages per run, seeded yields/sleeps/spins at the schedule points, '
                             'plus runs in which one handler call lasts 1.3 s while the other producers keep logging; '
                             'plus SignalSink runs (N producer threads, in signalmain also the main thread, receiver in the main thread) and '
-                            'resetwhile runs (asynchronous pipeline with a backlog, resetOwnThread() from another thread while the producers go on); '
+                            'resetwhile runs (asynchronous pipeline with a backlog, resetOwnThread() from another thread while the producers go on) and resetslow runs '
+                            '(resetOwnThread() called while the logger thread is inside a 400 ms handler for the last queued message, the producers log again 100 ms later); '
                             'non-trivial = at least two deliveries per producer' % (len(results), total),
                     'events_recorded': n_events, 'deliveries': n_deliv, 'producer_switches_between_consecutive_deliveries': switches,
                     'threads_histogram': {str(n): sum(1 for r in results if r[0]['n'] == n) for n in NS},
